@@ -850,7 +850,22 @@ def witnessProgram? (s : Bytes) : Option (Nat × Bytes) :=
 def isPayToScriptHash (s : Bytes) : Bool :=
   s.length == 23 && s.take 2 == [0xa9, 0x14] && s.drop 22 == [0x87]
 
-/-- `VerifyScript(scriptSig, scriptPubKey, witness, flags, checker)` for FlagsOk flag sets (Core `assert`s them) -/
+/-- the witness-program step of `VerifyScript` for the script `scr` (the scriptPubKey, or the P2SH redeem script):
+    `true` = a witness program was found and verified. `malleated`: the scriptSig is not what it has to be
+    (empty for a bare program, exactly the push of the redeem script for P2SH). -/
+def witnessStep (O : Oracles) (tx : TxCtx) (f : Flags) (q : Quirks) (scr : Bytes) (malleated : Bool)
+    (err : ScriptError) (isP2sh : Bool) : E Bool :=
+  if !f.witness then pure false else
+  match witnessProgram? scr with
+  | none => pure false
+  | some (ver, prog) => do
+    if malleated then throw err
+    verifyWitnessProgram O tx f q tx.witness ver prog isP2sh
+    pure true
+
+/-- `VerifyScript(scriptSig, scriptPubKey, witness, flags, checker)` for FlagsOk flag sets (Core `assert`s them).
+    `had…` is Core's `hadWitness`, `size…` the size of the stack CLEANSTACK looks at (`stack.resize(1)` after a
+    witness program). -/
 def verifyScript (O : Oracles) (tx : TxCtx) (scriptPubKey : Bytes) (f : Flags) (q : Quirks := {}) : E Unit := do
   let scriptSig := tx.sigScript
   let witness := tx.witness
@@ -862,34 +877,26 @@ def verifyScript (O : Oracles) (tx : TxCtx) (scriptPubKey : Bytes) (f : Flags) (
   match stack with
   | [] => throw EVAL_FALSE
   | t :: _ => if !castToBool t then throw EVAL_FALSE
-  let mut hadWitness := false
-  let mut finalSize := stack.length
-  if f.witness then
-    if let some (ver, prog) := witnessProgram? scriptPubKey then
-      hadWitness := true
-      if !scriptSig.isEmpty then throw WITNESS_MALLEATED
-      verifyWitnessProgram O tx f q witness ver prog false
-      finalSize := 1
-  if f.p2sh && isPayToScriptHash scriptPubKey then
-    if !isPushOnly scriptSig then throw SIG_PUSHONLY
-    match stackCopy with
-    | [] => throw UNKNOWN_ERROR   -- Core: assert(!stack.empty()) — cannot happen
-    | redeem :: rest =>
-      let stack2 ← evalScript env redeem rest
-      match stack2 with
-      | [] => throw EVAL_FALSE
-      | t :: _ => if !castToBool t then throw EVAL_FALSE
-      finalSize := stack2.length
-      if f.witness then
-        if let some (ver, prog) := witnessProgram? redeem then
-          hadWitness := true
-          if scriptSig != pushEncoding redeem then throw WITNESS_MALLEATED_P2SH
-          verifyWitnessProgram O tx f q witness ver prog true
-          finalSize := 1
+  -- bare witness program
+  let had1 ← witnessStep O tx f q scriptPubKey (!scriptSig.isEmpty) WITNESS_MALLEATED false
+  let size1 := if had1 then 1 else stack.length
+  -- P2SH
+  let (had2, size2) ← (if f.p2sh && isPayToScriptHash scriptPubKey then do
+      if !isPushOnly scriptSig then throw SIG_PUSHONLY
+      match stackCopy with
+      | [] => throw UNKNOWN_ERROR   -- Core: assert(!stack.empty()) — cannot happen
+      | redeem :: rest =>
+        let stack2 ← evalScript env redeem rest
+        match stack2 with
+        | [] => throw EVAL_FALSE
+        | t :: _ => if !castToBool t then throw EVAL_FALSE
+        let hadw ← witnessStep O tx f q redeem (scriptSig != pushEncoding redeem) WITNESS_MALLEATED_P2SH true
+        pure (had1 || hadw, if hadw then 1 else stack2.length)
+    else pure (had1, size1) : E (Bool × Nat))
   if f.cleanstack then
-    if finalSize != 1 then throw CLEANSTACK
+    if size2 != 1 then throw CLEANSTACK
   if f.witness then
-    if !hadWitness && !witness.isEmpty then throw WITNESS_UNEXPECTED
+    if !had2 && !witness.isEmpty then throw WITNESS_UNEXPECTED
 
 /-- the verdict of the rules: `true` = valid -/
 def verdict (O : Oracles) (tx : TxCtx) (scriptPubKey : Bytes) (f : Flags) (q : Quirks := {}) : E Unit :=
